@@ -36,13 +36,14 @@ ASSUMPTIONS = [
 ]
 
 ENGINE_VARS = ["A", "B", "Y"]
-OWN_VARS = ["k1", "k2"]
+OWN_VARS = ["k1", "rate"]  # a name ending in `e`: `rate-1` must not read as a number with an exponent
 ALL_VARS = ["x"] + ENGINE_VARS + OWN_VARS
 FN1 = [n for n, a in rf.FN_ARITY.items() if a == 1]
 FN2 = ["min", "max", "pow", "atan2", "fmod"]
 
 LIT = st.one_of(st.sampled_from([0.0, 1.0, 2.0, 3.0, 0.5, 10.0, 0.25, 0.001, 7.0]),
-                st.integers(0, 20000).map(lambda k: float(f"{k / 1000:.3f}")))
+                st.integers(0, 20000).map(lambda k: float(f"{k / 1000:.3f}")),
+                st.integers(0, 2000000).map(lambda k: float(f"{k / 100000:.5f}")))  # up to 5 decimals
 
 
 def mk_engine():
@@ -111,6 +112,11 @@ def cases(draw):
     nvars = draw(st.permutations(ALL_VARS))[:nv]
     depth = draw(st.sampled_from([1, 2, 2, 3, 3, 4, 5]))
     tree = draw(truth(depth, nvars)) if draw(st.integers(0, 4)) == 0 else draw(arith(depth, nvars))
+    if draw(st.integers(0, 5)) == 0:
+        # planted: the difference of two near-identical sub-expressions (literals differ from the 4th decimal on)
+        sub = draw(arith(min(depth, 3), nvars))
+        tree = {"k": "op", "n": draw(st.sampled_from(["-", "/", "+"])),
+                "a": [sub, rf.perturbed(sub, draw(st.sampled_from([0.0003, 0.0001, 0.00004])))]}
     n = draw(st.integers(1, 4))
     rows = [{v: draw(VALUE) for v in ALL_VARS} for _ in range(n)]
     return {"tree": tree, "tight": draw(st.booleans()), "rows": rows,
@@ -167,7 +173,7 @@ def impl_eval(f, engine, row_values, xv, via):
 
 def check_formula(ctx, case) -> None:
     tree, tight, mode = case["tree"], case["tight"], case["mode"]
-    rows = [dict(r) for r in case["rows"]]
+    rows = [dict({v: 0.0 for v in ALL_VARS}, **r) for r in case["rows"]]  # (older replay files lack newer names)
     text = rf.to_text(tree, tight)
     ctx.ev()
     engine = mk_engine()
@@ -194,11 +200,12 @@ def check_formula(ctx, case) -> None:
     ctx.check(got_pf == exp_pf, "postfix-structure", case, {"text": text, "got": got_pf, "expected": exp_pf})
     # reference values per row
     refs = []
+    exact_literals = rf.three_decimal(tree)
     for env in rows:
         try:
             r1 = rf.evaluate(tree, env)
             r2 = rf.evaluate_py(tree, env)
-            rp = rf.rpn(got_pf, env)
+            rp = rf.rpn(got_pf, env) if exact_literals else r1  # postfix() prints literals with 3 decimals
         except rf.Unknown:
             refs.append(None)
             ctx.cls("valuation_undefined_by_reference")
@@ -229,7 +236,7 @@ def check_formula(ctx, case) -> None:
         n = len(rows)
         cols = {}
         for v in ALL_VARS:
-            if mode == "mixed" and v in ("B", "k2"):
+            if mode == "mixed" and v in ("B", "rate"):
                 for r in rows:
                     r[v] = rows[0][v]
                 cols[v] = rows[0][v]
